@@ -19,6 +19,8 @@ From Coq Require Import List ZArith Bool Relations.
 Import ListNotations.
 Require Import Gram.Model.Term Gram.Model.DeBruijn Gram.Model.Eval Gram.Spec.Typing Gram.Oracle.Infer Gram.Proofs.InferSound Gram.Proofs.ConvProofs.
 Require Import Gram.Model.ModelB Gram.Proofs.StoreProofs Gram.Proofs.StoreTc Gram.Proofs.AcyclicProofs Gram.Proofs.AcyclicTc Gram.Proofs.ScopedProofs Gram.Proofs.ScopeStore.
+Require Gram.Proofs.TcSoundHF.
+Require Import Gram.Proofs.UnifyConsistent.
 
 Theorem C12_validator_sound : forall fuel G a b, convb fuel G a b = Some true -> conv G a b.
 Proof. exact convb_sound. Qed.
@@ -125,3 +127,43 @@ Theorem C12_scoping_refuted_D19 : ltac:(let T := type of CE.unify_local_hole_bre
 Proof. exact CE.unify_local_hole_breaks_scoping. Qed.
 Check C12_scoping_refuted_D19 : _ /\ _ /\ _ /\ _ /\ _ /\ _ /\ _ /\ scoped (zonkB 5 CE.sA2 (THole 0 0)) 0 = false.
 Print Assumptions C12_scoping_refuted_D19.
+
+(* THE PROPERTY, for every unification during which the two instrumented events do not occur (Proofs/UnifyConsistent.v).
+   `unifyN` is the unifier of Model B in which the two call sites behind the recorded findings ABORT: `open` meeting an
+   unsolved hole (hook H1, finding D9) and `signed_shift` leaving an unsolved hole below the cutoff (hook H3, finding D19).
+   When it answers, the real unifier gives the same answer (unifyN_refines); and a positive answer is CONSISTENT - under
+   every completion of the remaining unsolved cells and every context matching the definitions, the two sides are
+   definitionally equal - and WELL SCOPED - every recorded solution mentions only variables in scope where its hole was
+   written. Both aborts are necessary (computed counterexamples). This is what makes the run-time attribution of a
+   failure to D9 / D19 by the hooks principled: a failure with both counters silent cannot be either finding. *)
+Theorem C12_unification_consistent_and_well_scoped : forall H L f s D a b s',
+  store_okL H L s -> dctx_okL H L D -> wsc H L (length D) a -> wsc H L (length D) b ->
+  unifyN f s D a b = Some (true, s') ->
+  unifyB f s D a b = Some (true, s') /\ store_okL H L s' /\ consistent_at D a b s'.
+Proof. exact unifyN_consistent. Qed.
+Check C12_unification_consistent_and_well_scoped : forall H L f s D a b s',
+  store_okL H L s -> dctx_okL H L D -> wsc H L (length D) a -> wsc H L (length D) b ->
+  unifyN f s D a b = Some (true, s') ->
+  unifyB f s D a b = Some (true, s') /\ store_okL H L s' /\ consistent_at D a b s'.
+Print Assumptions C12_unification_consistent_and_well_scoped.
+
+Theorem C12_instrumented_unifier_refines : forall f s D a b r, unifyN f s D a b = Some r -> unifyB f s D a b = Some r.
+Proof. exact unifyN_refines. Qed.
+Check C12_instrumented_unifier_refines : forall f s D a b r, unifyN f s D a b = Some r -> unifyB f s D a b = Some r.
+Print Assumptions C12_instrumented_unifier_refines.
+
+Theorem C12_consistent_under_every_filling : forall H L f s a b s' v,
+  store_okL H L s -> acyclic s -> wsc H L 0 a -> wsc H L 0 b -> hole_free v = true ->
+  unifyN f s [] a b = Some (true, s') ->
+  exists au bu, TcSoundHF.zk (fill v s') a au /\ TcSoundHF.zk (fill v s') b bu /\ conv [] au bu.
+Proof. exact unifyN_consistent_filled. Qed.
+Check C12_consistent_under_every_filling : forall H L f s a b s' v,
+  store_okL H L s -> acyclic s -> wsc H L 0 a -> wsc H L 0 b -> hole_free v = true ->
+  unifyN f s [] a b = Some (true, s') ->
+  exists au bu, TcSoundHF.zk (fill v s') a au /\ TcSoundHF.zk (fill v s') b bu /\ conv [] au bu.
+Print Assumptions C12_consistent_under_every_filling.
+
+Theorem C12_both_events_are_necessary : ltac:(let T1 := type of Witness.H1_is_necessary in let T3 := type of Witness.H3_is_necessary in exact (T1 /\ T3)).
+Proof. exact (conj Witness.H1_is_necessary Witness.H3_is_necessary). Qed.
+Check C12_both_events_are_necessary : _ /\ _.
+Print Assumptions C12_both_events_are_necessary.
